@@ -23,7 +23,9 @@ WORK = f"{BUILD}/work"
 FOUND = f"{VERIF}/replays/found"
 
 SAN = "-fsanitize=address,undefined -fno-sanitize-recover=undefined"
-CXXFLAGS = (f"-std=gnu++17 -O1 -g1 -fno-omit-frame-pointer {SAN} -DVOTCA_VERIF "
+# VV_OPT: development aid (soundness experiment "same code, other code generation"); registered commands never set it
+OPT = os.environ.get("VV_OPT", "-O1")
+CXXFLAGS = (f"-std=gnu++17 {OPT} -g1 -fno-omit-frame-pointer {SAN} -DVOTCA_VERIF "
             f"-I{VERIF}/harness -I{REPO}/tools/include -I{REPO}/csg/include -I{RB}/tools/include -I{RB}/tools/include/votca/tools "
             f"-I{RB}/csg/include -I{RB}/csg/src/libcsg -I/usr/include/eigen3 -I/usr/include/hdf5/serial "
             f"-I{REPO}/xtp/include -I{HB}/xtpcfg -Wno-deprecated-declarations")
